@@ -167,6 +167,10 @@ class MediaList(cssutils.util._NewListBase):
         if newMedium.wellformed:
             return newMedium
 
+    def __delitem__(self, index):
+        self._checkReadonly()
+        super().__delitem__(index)
+
     def __setitem__(self, index, newMedium):
         """Overwriting ListSeq.__setitem__
 
